@@ -119,7 +119,7 @@ pub fn specs() -> Vec<PropSpec> {
             nontrivial: |r| p(r, "commit") > 0 && r.faults.values().sum::<u64>() > 0,
             nontrivial_rule: "at least one block was committed and at least one fault actually fired",
             required_probes: &["commit"],
-            quick_runs: 160,
+            quick_runs: 240,
             thorough_runs: 6000,
             quick_wall_s: 90.0,
             thorough_wall_s: 1200.0,
@@ -149,7 +149,7 @@ pub fn specs() -> Vec<PropSpec> {
             &["C19.qc-emitted", "C19.tc-broadcast"], 160, 6000),
         spec("C12", crate::gen::c12, C12_RULE, |r| p(r, "C12.own-batch-stored") > 0 && (f(r, "mute-ack") + f(r, "mempool-cut") + f(r, "mempool-delay") + f(r, "reset")) > 0,
             "a node released an own batch and a fault on the acknowledgement path (held replies, cut or slowed mempool link, reset) actually fired",
-            &["C12.own-batch-stored", "C12.ack-seen", "C12.quorum-checked"], 160, 6000),
+            &["C12.own-batch-stored", "C12.ack-seen", "C12.quorum-checked"], 110, 6000),
         spec("C11", crate::gen::c11, C11_RULE, |r| p(r, "C11.own-batch") >= 2,
             "at least two batches were sealed",
             &["C11.own-batch", "C11.batch-stored", "tx.delivered"], 200, 8000),
